@@ -30,7 +30,7 @@ Definition A0 := init_genome true None genes0.         (* allow_mutations on *)
    unauthorised mutation, calls on the child *)
 Definition hist : list op :=
   [ (0%nat, OMutate 0 2); (0%nat, OMutate 1 6); (0%nat, OAdd (mkGene 1 8 Structural 0 false Low));
-    (0%nat, OSilence 0); (0%nat, OReplicate [(0, VInt 4); (1, VInt 3)] true);
+    (0%nat, OSilence 0); (0%nat, OReplicate [(0, VInt 4); (1, VInt 3)] true []);
     (1%nat, OMutate 0 11); (1%nat, ORollback 0); (0%nat, ORollback 1); (0%nat, OExpress [1]) ].
 
 (* c20_unauthorised_ops_change_nothing: hypotheses hold, and the run is not
@@ -90,7 +90,7 @@ Proof. repeat split; apply NoDup_cons_iff || idtac; vm_compute; repeat construct
 
 (* c20_replicate_preserves_parent *)
 Example ex_replicate_step :
-  exists W' r, step [P0] (0%nat, OReplicate [(0, VInt 4)] true) = (W', r) /\
+  exists W' r, step [P0] (0%nat, OReplicate [(0, VInt 4)] true []) = (W', r) /\
     nth_error W' 0 = Some P0 /\ length W' = 2%nat.
 Proof. eexists. eexists. split; [reflexivity|]. vm_compute. split; reflexivity. Qed.
 
@@ -105,7 +105,7 @@ Proof. vm_compute. repeat split. Qed.
    then an authorised rollback gives 1 back; under [user_only] the rollback is
    refused and logged *)
 Definition between : list op :=
-  [ (0%nat, OMutate 1 6); (0%nat, OSilence 0); (0%nat, OReplicate [(0, VInt 9)] true); (1%nat, OMutate 0 3) ].
+  [ (0%nat, OMutate 1 6); (0%nat, OSilence 0); (0%nat, OReplicate [(0, VInt 9)] true []); (1%nat, OMutate 0 3) ].
 
 Example ex_rollback :
   exists W1, step [P0] (0%nat, OMutate 0 2) = (W1, RetBool true) /\ stored P0 0 = Some (VInt 1) /\
@@ -131,7 +131,7 @@ Proof. vm_compute. repeat split. Qed.
    replication and a rollback with nothing to roll back are all unauthorised *)
 Definition unauth_ops : list gop :=
   [ OMutate 1 6; OAdd (mkGene 1 8 Structural 0 false Low); OSilence 0; OMutate 3 0;
-    OReplicate [(0, VInt 4)] true; ORollback 1; OSetExpr 2 Low; OExpress [1] ].
+    OReplicate [(0, VInt 4)] true []; ORollback 1; OSetExpr 2 Low; OExpress [1] ].
 
 Example ex_all_unauthorised :
   all_unauthorised P0 unauth_ops /\ length (mlog (g_run P0 unauth_ops)) = 2%nat.
@@ -202,3 +202,42 @@ Qed.
 Example ex_express_none :
   g_express N0 [] = [(0, VNone); (1, VBool false); (2, str [])].
 Proof. vm_compute. reflexivity. Qed.
+
+(* ---- random mutations during replication (mutation_rate > 0) ----------- *)
+
+(* mutation_rate = 64/64 = 1.0; a callback approving random mutations of gene 0
+   only.  random.random() scripted as 0, 0, 0, 63/64, 0, 48/64, 0: every gene is
+   picked; 5 -> int(5 + 5*0.1*(0 - 0.5)) = 4 is approved and applied; True ->
+   int(1 + 0.1*(63/64 - 0.5)) = 1 (an int, not a bool) and 0.5 -> 0.5125 (as the
+   binary64 number 2308094809027379/2^52) are refused and logged unapproved; the
+   string gene is not numeric and is not attempted.
+   (c20_child_differs_only_authorised, c20_child_values_replay,
+   c20_random_mutations_gated, c20_refused_random_logged.) *)
+Definition rand0 : option oracle := Some (interp_oracle [RMatch (Some 0) None None (Some RRandom)]).
+Definition genesR : list gene :=
+  [ mkGene 0 5 Structural 0 false Normal; mkGene 1 (VBool true) Structural 1 false Normal;
+    mkGene 2 (VFloat 1 2) Structural 2 false Normal; mkGene 3 (str [97]) Structural 3 false Normal ].
+Definition R0 := init_genome_r false rand0 64 genesR.
+Definition script : list Z := [0; 0; 0; 63; 0; 48; 0].
+
+Example ex_random_mutations :
+  let c := g_replicate_full R0 [] true script in
+  wf R0 /\ allow R0 = false /\ mrate c = 64 /\
+  mlog c = [ mkM 0 5 4 RRandom true; mkM 1 (VBool true) 1 RRandom false;
+             mkM 2 (VFloat 1 2) (VFloat 2308094809027379 4503599627370496) RRandom false ] /\
+  vals c = [(0, VInt 4); (1, VBool true); (2, VFloat 1 2); (3, str [97])] /\
+  stored c 0 <> stored R0 0 /\ vals R0 = [(0, VInt 5); (1, VBool true); (2, VFloat 1 2); (3, str [97])] /\
+  c = apply_random (g_replicate R0 [] true)
+        [(0, VInt 4); (1, VInt 1); (2, VFloat 2308094809027379 4503599627370496)].
+Proof.
+  vm_compute. repeat split; try discriminate.
+  repeat (constructor; [cbn [In]; intuition discriminate|]). constructor.
+Qed.
+
+(* with mutation_rate = 0 the same script changes nothing and logs nothing; a
+   rate of 32/64 picks exactly the genes whose draw is below 1/2 *)
+Example ex_random_rate :
+  g_replicate_full (init_genome_r false rand0 0 genesR) [] true script =
+    g_replicate (init_genome_r false rand0 0 genesR) [] true /\
+  map m_gene (mlog (g_replicate_full (init_genome_r true None 32 genesR) [] true [40; 10; 63; 33; 31; 0])) = [1].
+Proof. vm_compute. split; reflexivity. Qed.
